@@ -89,7 +89,8 @@ def rule_kernel_denominators(chk, prog, rel=KN, rule=RULE):
         if prog.find_method(mod, cls, "k_and_deriv") is None:
             continue
         for mname, meth in pf.methods(cls).items():
-            if mname in METHODS:
+            # value / gradient routines: the methods that take the kernel input X (public or private)
+            if "X" in [a.arg for a in meth.args.args] and mname != "__init__":
                 entries.append((cname, mname, meth))
     if len(entries) < 10:
         raise AnalysisError("fewer than 10 value/gradient methods of differentiable kernels found in %s" % rel)
